@@ -101,13 +101,13 @@ def match_previous_literal(expr: ParserElement) -> ParserElement:
             rep << Empty()
             return
 
-        if len(t) == 1:
+        if len(t) == 1 and isinstance(t[0], str):
             rep << t[0]
             return
 
         # flatten t tokens
         tflat = _flatten(t.as_list())
-        rep << And(Literal(tt) for tt in tflat)
+        rep << And(Literal(str(tt)) for tt in tflat)
 
     expr.add_parse_action(copy_token_to_repeater, callDuringTry=True)
     rep.set_name("(prev) " + str(expr))
